@@ -527,7 +527,7 @@ func (hs *serverHandshakeState) checkForResumption() bool {
 	sessionKey := hex.EncodeToString(hs.clientHello.sessionId)
 	var ok bool
 	hs.sessionState, ok = c.config.SessionCache.Get(sessionKey)
-	if !ok {
+	if !ok || hs.sessionState == nil {
 		return false
 	}
 
